@@ -671,7 +671,9 @@ impl Property for P {
                             Some(o) => o.len() < min_operands(x.op) || x.op >= 12 && x.op <= 15
                                 || o.iter().any(|y| match y { Opnd::Elem(j) => *j as usize >= e.len() || *j as usize <= i, Opnd::Attribute | Opnd::Bad => true, _ => false }),
                         });
-                        format!("{}-{}-{}el", if bad { "malformed" } else { "wellformed" }, OPS[e[0].op as usize], e.len().min(4))
+                        let class = match e[0].op { 0 | 2..=5 => "compare", 1 => "isnull", 6 => "like", 7 | 10 | 11 => "logic", 8 => "between",
+                                                    9 => "inlist", 16 | 17 => "bitwise", _ => "unsupported" };
+                        format!("{}-{}{}", if bad { "malformed" } else { "wellformed" }, class, if e.len() > 1 { "-nested" } else { "" })
                     }
                 };
                 Out { tag, term, out }
